@@ -22,6 +22,12 @@ func TestVerifGen(t *testing.T) {
 			t.Fatalf("generate %s: %v", l.Name, err)
 		}
 	}
+	// layouts that single checks ask for: next to the common root
+	for _, l := range vgen.ExtraLayouts() {
+		if err := vgen.Generate(vGenExtraRoot(), src, l); err != nil {
+			t.Fatalf("generate %s: %v", l.Name, err)
+		}
+	}
 	if neg := os.Getenv("VERIF_GENNEG"); neg != "" {
 		for _, l := range vgen.NegativeLayouts() {
 			if err := vgen.Generate(neg, src, l); err != nil {
@@ -29,4 +35,13 @@ func TestVerifGen(t *testing.T) {
 			}
 		}
 	}
+}
+
+// vGenExtraRoot is the VoD root of the layouts of vgen.ExtraLayouts ("" without generated assets).
+func vGenExtraRoot() string {
+	g := os.Getenv("VERIF_GENROOT")
+	if g == "" {
+		return ""
+	}
+	return filepath.Join(filepath.Dir(g), "genx")
 }
